@@ -20,11 +20,30 @@ Interp1D, SQuad:
            plain-torch closed form of the solution; wrap: values and gradients must be bit-identical to passing the
            built-in's name with the same options.  A second recording callable is passed as bck_options["method"]
            (solve family: the backward linear solve) and must see exactly the bck options.
+           Who does the nested solves / integrations of every differentiation order (orders 1, 2 and, where a backward method of
+           the caller can be observed, 3; the third order only serves these observations and the bit-identity of wrapped
+           built-ins, its values are not compared with a reference):
+             * every call of the backward callable, at whatever nesting depth (backward of the backward solve, adjoint of the
+               adjoint integration), must carry the documented options and run with gradient recording disabled;
+             * calls are counted per differentiation pass (c1, c2, c3).  The first-order gradient of solve / symeig / svd /
+               rootfinder / equilibrium / minimize / solve_ivp is a function of the functional's own output and of the results
+               of the c1 first-order backward solves (integrations): differentiating it differentiates each of those (one solve
+               each, configured by the same bck_options) and re-enters the functional's backward on a new cotangent (c1 solves
+               again): c2 >= 2 c1, and likewise c3 >= 2 c2.  quad's gradient does not contain the integral: c2 >= c1, c3 >= c2.
+               Fewer calls mean that some other solver did the rest (the automatic default instead of the caller's method);
+             * the backward callable is the only accurate solver at hand: it is an exact dense solve, and with it the problem may
+               have more than 5 unknowns behind a LinearOperator that is not a plain matrix (solve: the caller's own subclass;
+               root family: the Jacobian operator), where the automatic default is cg / bicgstab at relative residual 1e-6 —
+               4-5 orders of magnitude above the second-order tolerance; for solve_ivp / quad it is an accurate integrator
+               (rk45 at 1e-10 / 24-point Gauss) that does not read the options it is handed, while those contain no tolerance
+               (quad: n=2), so that a built-in given the same options misses the closed-form reference.
+           mcquad's backward re-uses the forward samples (no nested sampler call): values only.
 
 Tolerances (closed; all float64, eps = 2.2e-16; relative to scale = 1 + max|reference|; first / second order):
-  solve        X = (A - e M)^-1 B with kappa(A - e M) <= 3 (sym) or sigma in [0.7, 3.3] (gen) by construction; xitorch's
-               backward is a dense solve (n <= 4 -> exactsolve): error <= c n kappa^2 eps (first), c n kappa^3 eps (second),
-               c ~ 1e2  -> 1e-12 / 1e-11 (largest observed ratio error/tolerance 5e-4).
+  solve        X = (A - e M)^-1 B with kappa(A - e M) <= 3 (sym) or sigma in [0.7, 3.3] (gen) by construction, for every n; the
+               backward is a dense solve (n <= 4: exactsolve or the recording callable; 8 <= n <= 12: only with the recording
+               exact callable as backward method): error <= c n kappa^2 eps (first), c n kappa^3 eps (second), c ~ 30, n <= 12
+               -> 1e-12 / 1e-11 (largest observed ratio error/tolerance 5e-4 for n <= 4, 1e-3 for n <= 12).
   symeig/svd   spectral gaps >= 0.5, |lambda| <= 5, kappa(M) <= 2.  Values 1e-10.  The implicit backward solves the shifted
                system (A - lambda_i M) x = b, singular to rounding, densely and projects the eigenvector component
                alpha_i = O(eps/delta_i) out again (delta_i = distance to exact singularity, a rounding accident with a 1/x
@@ -33,12 +52,14 @@ Tolerances (closed; all float64, eps = 2.2e-16; relative to scale = 1 + max|refe
                alpha measured by the case's own first-order error: tolerance 1e-8 + 100 err1^2/eps.  In addition the built-in
                custom_exacteig is run on the same problem: when its forward values are bit-identical to the callable's
                (always, by construction) the first/second-order gradients must be bit-identical too.
-  root family  y* = K^-1 asinh(c), kappa(K) <= 3, Jacobian (K^T) diag(cosh) K-type with kappa <= 15, dense backward solve
-               -> 1e-12 / 1e-11 (observed ratio <= 1e-3).
-  solve_ivp    closed form expm; backward by rk45 with rtol = atol = 1e-10 (bck_options): local error per step <= 1e-10 scale,
+  root family  y* = K^-1 asinh(c), kappa(K) <= 3, Jacobian (K^T) diag(cosh) K-type with kappa <= 15 (bounds on the spectrum of K and
+               on |c|, independent of n), dense backward solve (n <= 3 any backward; 6 <= n <= 10 only with the recording exact
+               callable) -> 1e-12 / 1e-11 (observed ratio <= 1e-3 for n <= 3, <= 3e-3 for n <= 10).
+  solve_ivp    closed form expm; backward by rk45 with rtol = atol = 1e-10 (named in bck_options, or the caller's callable that runs
+               rk45 at these tolerances whatever options it is handed): local error per step <= 1e-10 scale,
                <= ~50 steps over <= 1.8 time units, amplification exp(|A| T) <= ~9 -> 5e-8 first order, 5e-7 second order
                (the second-order pass integrates the first-order pass's own adjoint; observed ratio <= 1e-3).
-  quad         closed form; backward by 24-point Gauss-Legendre on an entire integrand with |a (xu - xl)| <= 6:
+  quad         closed form; backward by 24-point Gauss-Legendre (named, or the caller's callable) on an entire integrand with |a (xu - xl)| <= 6:
                truncation << eps, rounding <= 1e2 n eps -> 1e-12 / 1e-11 (observed ratio <= 2e-3).
   mcquad       sampler = fixed nodes with self-normalised weights prop. to p: the estimator is an explicit finite sum,
                whose autograd derivatives coincide with mcquad's score-function backward -> 1e-12 / 1e-11.
@@ -61,10 +82,14 @@ RULE = ("names: functional x built-in name x random case pattern (>=1 upper-case
         "member with an inserted char, member of another table, empty) x {method, bck_options.method}; custom: functional x {closed-form "
         "callable, callable wrapping each built-in} x callable flavour (function, object, unhashable object, partial, bound method) x fwd "
         "option dict (0-3 keys, free and real option names, JSON values) x bck option dict (incl. a recording callable as backward method) "
-        "x order 1/2. The finite part of the quantifier is also enumerated on every run (tasks *_all): every functional x every built-in "
+        "x order 1/2(/3) x operator kind (matrix / the caller's own subclass) x size class. The finite part of the quantifier is also enumerated on every run (tasks *_all): every functional x every built-in "
         "name x {UPPER, Capitalised, aLtErNaTiNg} x order 1/2 (+ every backward method name), every functional x {empty, name+'x', "
         "name minus last char, name with '_' inserted}, every functional x {closed, each wrappable built-in} x order 1/2 x {no bck_options, "
-        "recording backward callable}, with problem data re-drawn from VERIF_SEED. Tiny problems (n<=5) with closed-form solutions. "
+        "recording backward callable}, with problem data re-drawn from VERIF_SEED. Tiny problems (n<=5) with closed-form solutions; with a "
+        "recording exact backward callable also 8-12 unknowns behind the caller's own (non-matrix) LinearOperator (solve) and 6-10 unknowns "
+        "(rootfinder/equilibrium/minimize), where the automatic backward solver would be iterative. Order 3 where a backward method of the "
+        "caller is observable: calls of the backward callable are counted per differentiation pass (c2 >= 2 c1, c3 >= 2 c2; quad c2 >= c1) "
+        "and every nested call must carry the documented options with grad mode off. "
         "Non-trivial = the run differentiated at least one leaf with a non-zero reference/first gradient (names, custom) or the rejection "
         "was observed (unknown); distinct by canonical case.")
 ASSUMPTIONS = [
@@ -76,11 +101,18 @@ ASSUMPTIONS = [
     "solve_ivp is not differentiated w.r.t. ts; mcquad tensors each enter f or log p (no unused tensors); symeig spectra are separated",
     "bit-identity of name variants assumes single-threaded deterministic torch kernels and reseeding the global RNG before each run",
     "closed-form tolerances as derived in the module docstring; the independent reference is autograd through plain-torch closed forms",
+    "bck_options govern every linear solve / integration of every differentiation order (the backward of the backward solve is configured "
+    "by the same bck_options; solve_ivp/quad: bck_options with unspecified fields from the forward options, at every nesting depth)",
+    "call counts: reverse-mode differentiation visits every implicit node once per pass and each visit of a solve / root / eigen / ivp node "
+    "is one backward solve (per output interval for solve_ivp); the first-order gradient depends on the functional's output except for quad; "
+    "cotangents are random normal, so no nested right-hand side is exactly zero (the documented zero short-cut calls no method)",
+    "third-order values are not compared with a reference (the statement covers first and second order); they are compared bit-for-bit "
+    "between a callable wrapping a built-in and the built-in's name",
 ]
 LEVEL_TEXT = ("Exploration over functionals x methods x option dictionaries x derivative order with recording callables as the observation "
               "points; differential (bit-exact) oracle for name variants and wrapped built-ins, closed-form autograd reference for graph-free "
               "callables, rejection oracle for non-member names.")
-LEVEL_NOTE = "trusts torch autograd/linalg on the plain-torch closed forms; sizes n<=4"
+LEVEL_NOTE = "trusts torch autograd/linalg on the plain-torch closed forms; sizes n<=5 (n<=12 with an exact backward callable)"
 TECHNIQUE = "Hypothesis property-based testing: recording callables + differential and closed-form oracles"
 WALL = {"quick": 300, "thorough": 1500}
 
@@ -208,6 +240,32 @@ def _same_opts(got, want):
 # ------------------------------------------------------------------------------------------------
 # problems.  Each has: leaves, run(method, fwd, bck) -> list of output tensors, ref() -> list of reference outputs
 
+_OPCLS = {}
+
+
+def mv_operator(mat, herm):
+    """the caller's own LinearOperator subclass (products only: not a MatrixLinearOperator, so that the automatic choice of a
+    solver for more than 5 rows is an iterative one)"""
+    if "cls" not in _OPCLS:
+        import xitorch
+
+        class ProductOperator(xitorch.LinearOperator):
+            def __init__(self, mat, herm):
+                super().__init__(shape=mat.shape, is_hermitian=herm, dtype=mat.dtype, device=mat.device)
+                self.mat = mat
+
+            def _mv(self, x):
+                return torch.matmul(self.mat, x.unsqueeze(-1)).squeeze(-1)
+
+            def _rmv(self, x):
+                return torch.matmul(self.mat.transpose(-2, -1), x.unsqueeze(-1)).squeeze(-1)
+
+            def _getparamnames(self, prefix=""):
+                return [prefix + "mat"]
+        _OPCLS["cls"] = ProductOperator
+    return _OPCLS["cls"](mat, herm)
+
+
 class SolveProblem:
     name = "solve"
     tol = (1e-12, 1e-11)
@@ -217,6 +275,7 @@ class SolveProblem:
         n, nc = p["n"], p["ncols"]
         self.sym = p["sym"]
         self.n, self.nc = n, nc
+        self.op = p.get("op", "matrix")
         if self.sym:
             q = _orth(g, n)
             a = (q * _rand(g, (n,), 1.0, 3.0)) @ q.T
@@ -245,7 +304,7 @@ class SolveProblem:
         from xitorch import LinearOperator
         from xitorch.linalg import solve
         A, M = self.mats()
-        Aop = LinearOperator.m(A, is_hermitian=self.sym)
+        Aop = LinearOperator.m(A, is_hermitian=self.sym) if self.op == "matrix" else mv_operator(A, self.sym)
         Mop = LinearOperator.m(M, is_hermitian=True) if M is not None else None
         kw = dict(fwd)
         if bck is not None:
@@ -689,10 +748,16 @@ def _opts_changed(before, now):
     return None
 
 
-def evaluate(prob, case, method, fwd, bck, order, wseed):
+def evaluate(prob, case, method, fwd, bck, order, wseed, counters=()):
+    """counters: recording callables; res["ncalls"] = their call counts after the forward call, the first-order and the
+    second-order differentiation (one row per stage reached)"""
     from pbt.harness import XitorchRaised
     torch.manual_seed(case["seed"] % (2 ** 31))
     fwd0, bck0 = dict(fwd), (None if bck is None else dict(bck))
+    ncalls = []
+
+    def mark():
+        ncalls.append([len(c.calls) for c in counters])
 
     def options_intact(when):
         # the caller's option dictionaries are the caller's: a functional that edits them changes what the *next* call
@@ -702,24 +767,31 @@ def evaluate(prob, case, method, fwd, bck, order, wseed):
             raise XitorchRaised("caller_options_mutated", "after the %s the caller's option dictionary was modified: %s" % (when, msg))
     outs = xt_call(prob.run, method, fwd, bck, _where="forward")
     options_intact("forward call")
+    mark()
     gw = gen.seeded(wseed)
     W = [torch.randn(o.shape, generator=gw, dtype=DT) for o in outs]
     loss = sum((o * w).sum() for o, w in zip(outs, W))
-    res = {"outs": [o.detach().clone() for o in outs], "g1": None, "g2": None, "graph": loss.requires_grad}
+    res = {"outs": [o.detach().clone() for o in outs], "g1": None, "g2": None, "graph": loss.requires_grad, "ncalls": ncalls}
     if not loss.requires_grad:
         return res
     leaves = prob.leaves
-    g1 = xt_call(torch.autograd.grad, loss, leaves, create_graph=(order == 2), allow_unused=True, _where="backward")
+    g1 = xt_call(torch.autograd.grad, loss, leaves, create_graph=(order >= 2), allow_unused=True, _where="backward")
     options_intact("backward pass")
+    mark()
     res["g1"] = [None if x is None else x.detach().clone() for x in g1]
-    if order == 2:
+    gk = g1
+    for k in range(2, order + 1):
+        # order k: gradient of a fixed random contraction of the order k-1 gradients (order 3 only serves the observation of the
+        # callables; its values are compared between two spellings of one method, never with a reference)
         C = [torch.randn(x.shape, generator=gw, dtype=DT) for x in leaves]
-        terms = [(c * x).sum() for c, x in zip(C, g1) if x is not None and x.requires_grad]
-        if terms:
-            g2 = xt_call(torch.autograd.grad, sum(terms), leaves, allow_unused=True, _where="backward2")
-            res["g2"] = [None if x is None else x.detach().clone() for x in g2]
-        else:
-            res["g2"] = "nograph"
+        terms = [(c * x).sum() for c, x in zip(C, gk) if x is not None and x.requires_grad]
+        if not terms:
+            res["g%d" % k] = "nograph"
+            break
+        gk = xt_call(torch.autograd.grad, sum(terms), leaves, create_graph=(k < order), allow_unused=True, _where="backward%d" % k)
+        options_intact("order-%d backward pass" % k)
+        mark()
+        res["g%d" % k] = [None if x is None else x.detach().clone() for x in gk]
     return res
 
 
@@ -729,9 +801,9 @@ def evaluate_ref(prob, order, wseed):
     W = [torch.randn(o.shape, generator=gw, dtype=DT) for o in outs]
     loss = sum((o * w).sum() for o, w in zip(outs, W))
     leaves = prob.leaves
-    g1 = torch.autograd.grad(loss, leaves, create_graph=(order == 2), allow_unused=True)
+    g1 = torch.autograd.grad(loss, leaves, create_graph=(order >= 2), allow_unused=True)
     res = {"outs": [o.detach() for o in outs], "g1": [torch.zeros_like(l) if x is None else x.detach() for x, l in zip(g1, leaves)], "g2": None}
-    if order == 2:
+    if order >= 2:
         C = [torch.randn(x.shape, generator=gw, dtype=DT) for x in leaves]
         terms = [(c * x).sum() for c, x in zip(C, g1) if x is not None and x.requires_grad]
         g2 = torch.autograd.grad(sum(terms), leaves, allow_unused=True) if terms else [None] * len(leaves)
@@ -767,9 +839,9 @@ def _maxdiff(a, b):
 
 
 def compare_exact(r1, r2, what, labels):
-    for key in ("outs", "g1", "g2"):
-        if not _eq_list(r1[key], r2[key]):
-            a, b = r1[key], r2[key]
+    for key in ("outs", "g1", "g2", "g3"):
+        if not _eq_list(r1.get(key), r2.get(key)):
+            a, b = r1.get(key), r2.get(key)
             diff = _maxdiff(a, b) if isinstance(a, list) and isinstance(b, list) and len(a) == len(b) else float("nan")
             return violation("differs_" + key, "%s: %s differ (max abs diff %.3e)" % (what, key, diff), labels)
     return None
@@ -810,7 +882,7 @@ def compare_ref(res, ref, prob, order, what, labels):
         if not err <= t1 * sc:
             return violation("grad1", "%s: first-order gradient of leaf #%d differs from the reference by %.3e (tol %.3e): got %s ref %s" % (
                 what, k, err, t1 * sc, gk0.reshape(-1).tolist()[:4], rk.reshape(-1).tolist()[:4]), labels), False
-    if order == 2:
+    if order >= 2:
         if (res["g2"] == "nograph" or res["g2"] is None) and not ref["g2_graph"]:
             return None, nonzero        # the first-order gradient is constant in the leaves for the reference too
         if res["g2"] == "nograph" or res["g2"] is None:
@@ -1103,6 +1175,24 @@ def closed_impl(fn, prob):
     raise ValueError(fn)
 
 
+def accurate_impl(fn):
+    """the caller's own accurate backward integrator: it does not read the options it is handed (they are the caller's, with the
+    caller's meaning), so that no built-in given the same options can stand in for it unnoticed"""
+    if fn == "solve_ivp":
+        rk45 = builtin_impl("solve_ivp", "rk45")
+        return lambda fcn, ts, y0, params, **kw: rk45(fcn, ts, y0, params, rtol=1e-10, atol=1e-10)
+    if fn == "quad":
+        lg = builtin_impl("quad", "leggauss")
+        return lambda fcn, xl, xu, params, **kw: lg(fcn, xl, xu, params, n=24)
+    raise ValueError(fn)
+
+
+# functionals whose first-order gradient is a function of their own output (x, the eigenvectors, y*, y(t)) besides the result of the
+# backward solve / integration: differentiating it once more re-enters the functional's backward (the first-order solves again, on a
+# new cotangent) in addition to differentiating every first-order backward solve.  quad's gradient does not contain the integral.
+REENTRY = {"solve": 2, "symeig": 2, "svd": 2, "rootfinder": 2, "equilibrium": 2, "minimize": 2, "solve_ivp": 2, "quad": 1}
+
+
 def tight_opts(fn, name):
     """options under which the wrapped built-in is cheap (accuracy is irrelevant for the bit-identity oracle)"""
     return fast_opts(fn, name)
@@ -1261,6 +1351,10 @@ def run_custom(case):
     flavor = case.get("flavor", "object")
     labels = ["task=custom", "fn=" + fn, "kind=" + kind + ("/" + case["wrapped"] if kind == "wrap" else ""), "order=%d" % order,
               "nfwd=%d" % len(case["fwd"]), "bck=" + case["bckmode"], "callable=" + flavor]
+    if fn == "solve" or fn in ROOT_FAMILY:
+        labels.append("unknowns=" + (">5" if case["prob"]["n"] > 5 else "<=5"))
+    if fn == "solve":
+        labels.append("operator=" + case["prob"].get("op", "matrix"))
     prob, g = build(case)
     fwd = {k: _val(v) for k, v in case["fwd"].items()}
     bck = {k: _val(v) for k, v in case["bck"].items()}
@@ -1291,14 +1385,23 @@ def run_custom(case):
             bck["method"] = flavoured(brec, flavor)
         bck_arg = bck if (bck or bckmode != "none") else None
     elif fn == "solve_ivp":
-        if kind == "closed":
+        if kind == "closed" and bckmode == "rec":
+            # the caller's accurate integrator as backward method and no tolerances among the options: every nested integration
+            # (the adjoint, and the adjoint of the adjoint at second order) has to be done by this callable to meet the tolerance
+            brec = Rec(accurate_impl(fn))
+            bck["method"] = flavoured(brec, flavor)
+        elif kind == "closed":
             bck.update({"method": "rk45", "rtol": 1e-10, "atol": 1e-10})
         elif bckmode == "rec":
             brec = Rec(builtin_impl(fn, case["wrapped"]))
             bck["method"] = flavoured(brec, flavor)
         bck_arg = bck if (bck or bckmode != "none") else None
     elif fn == "quad":
-        if kind == "closed":
+        if kind == "closed" and bckmode == "rec":
+            # as above; "n" is the caller's own option (a 2-point rule if a built-in were to read it)
+            brec = Rec(accurate_impl(fn))
+            bck.update({"method": flavoured(brec, flavor), "n": 2})
+        elif kind == "closed":
             bck.update({"method": "leggauss", "n": 24})
         elif bckmode == "rec":
             brec = Rec(builtin_impl(fn, case["wrapped"]))
@@ -1307,7 +1410,8 @@ def run_custom(case):
     else:   # mcquad
         bck_arg = bck if (bck or bckmode != "none") else None
 
-    res = evaluate(prob, case, flavoured(rec, flavor), fwd, bck_arg, order, case["seed"] + 1)
+    counters = (rec,) if brec is None else (rec, brec)
+    res = evaluate(prob, case, flavoured(rec, flavor), fwd, bck_arg, order, case["seed"] + 1, counters=counters)
 
     # ---- what the callable saw
     if not rec.calls:
@@ -1350,6 +1454,38 @@ def run_custom(case):
             if not _same_opts(c["kwargs"], want):
                 return violation("bck_options", "%s backward passed options %r to the backward callable, expected %r (fwd options %r)" % (
                     fn, sorted(c["kwargs"].items(), key=str), sorted(want.items(), key=str), sorted(fwd.items(), key=str)), labels)
+    # ---- who did the linear solves / integrations of each differentiation order: the caller's backward method (the callable given as
+    # bck_options["method"]; for solve_ivp / quad without one, the inherited forward callable) has to do all of them
+    nc = res["ncalls"]
+    who = None
+    if brec is not None:
+        who, col = "the callable given as bck_options['method']", 1
+    elif fn in ("solve_ivp", "quad") and kind == "wrap":
+        who, col = "the forward callable (inherited as backward method)", 0
+    if who is not None and len(nc) >= 2:
+        c1 = nc[1][col] - nc[0][col]
+        labels = labels + ["bckcalls1=%d" % c1]
+        if c1 < 1:
+            return violation("bck_method_not_called", "%s: %s was never called in the backward" % (fn, who), labels)
+        if len(nc) >= 3:
+            c2 = nc[2][col] - nc[1][col]
+            labels = labels + ["bckcalls2=%d" % c2]
+            if c2 < REENTRY[fn] * c1:
+                return violation("bck_method_skipped_at_second_order",
+                                 "%s: %s did %d solve(s)/integration(s) in the first-order pass but only %d in the second-order pass; differentiating "
+                                 "the first-order gradient takes at least %d (one per first-order backward solve%s): some other solver did the rest" % (
+                                     fn, who, c1, c2, REENTRY[fn] * c1,
+                                     " and the first-order backward again for the dependence on the functional's output" if REENTRY[fn] == 2 else ""),
+                                 labels)
+            if len(nc) >= 4:
+                c3 = nc[3][col] - nc[2][col]
+                labels = labels + ["bckcalls3=%d" % c3]
+                if c3 < REENTRY[fn] * c2:
+                    return violation("bck_method_skipped_at_third_order",
+                                     "%s: %s did %d / %d solve(s)/integration(s) in the first / second-order pass but only %d in the third-order pass; "
+                                     "differentiating the second-order gradient takes at least %d (one per second-order solve%s)" % (
+                                         fn, who, c1, c2, c3, REENTRY[fn] * c2,
+                                         ", and the second-order pass again on a new cotangent" if REENTRY[fn] == 2 else ""), labels)
     # ---- the functional returns the callable's value
     raw = getattr(prob, "raw", None) or res["outs"]
     if not _ret_matches(fn, prob, first["ret"], raw):
@@ -1403,6 +1539,30 @@ def optdict_st(draw, keys, maxn):
     return {k: draw(vals) for k in ks}
 
 
+ROOT_FAMILY = ("rootfinder", "equilibrium", "minimize")
+
+
+def third_order_applies(fn, kind, bckmode):
+    """a third differentiation is run where a backward method of the caller can be observed (who does the nested solves / integrations
+    of every order, with which options, in which grad mode)"""
+    return (fn in SOLVE_FAMILY and bckmode == "rec") or (fn in ("solve_ivp", "quad") and (bckmode == "rec" or kind == "wrap"))
+
+
+def enlarge(fn, prob, bckmode, choose, integer):
+    """custom task only: the operator of solve may be the caller's own LinearOperator subclass, and with a recording callable as backward
+    method the problem may have more than 5 unknowns, where the *automatic* choice of a backward solver would be an iterative method
+    with default tolerances (cg / bicgstab: relative residual 1e-6): a nested solve that is not done by the caller's exact callable
+    then misses the second-order tolerance by orders of magnitude.  choose(list) / integer(lo, hi) draw."""
+    big = bckmode == "rec" and choose([False, True, True])
+    if fn == "solve":
+        prob["op"] = "custom" if big else choose(["matrix", "custom"])
+        if big:
+            prob["n"] = integer(8, 12)
+    elif fn in ROOT_FAMILY and big:
+        prob["n"] = integer(6, 10)
+    return prob
+
+
 @st.composite
 def custom_st(draw, tier="quick"):
     fn = draw(st.sampled_from(FUNCTIONALS))
@@ -1416,8 +1576,13 @@ def custom_st(draw, tier="quick"):
     if fn in ("symeig", "svd") and bckmode != "none" and draw(st.booleans()):
         bck["degen_atol"] = draw(st.sampled_from([1e-9, 1e-7]))
         bck["degen_rtol"] = draw(st.sampled_from([1e-9, 1e-7]))
-    return {"fn": fn, "kind": kind, "wrapped": wrapped, "fwd": fwd, "bck": bck, "bckmode": bckmode, "flavor": draw(st.sampled_from(FLAVORS)),
-            "order": draw(st.sampled_from([1, 2])), "prob": prob_st(draw, fn), "seed": draw(st.integers(0, 2 ** 31 - 2))}
+    flavor = draw(st.sampled_from(FLAVORS))
+    order = draw(st.sampled_from([1, 2]))
+    if order == 2 and third_order_applies(fn, kind, bckmode) and draw(st.sampled_from([False, False, True])):
+        order = 3
+    prob = enlarge(fn, prob_st(draw, fn), bckmode, lambda xs: draw(st.sampled_from(xs)), lambda lo, hi: draw(st.integers(lo, hi)))
+    return {"fn": fn, "kind": kind, "wrapped": wrapped, "fwd": fwd, "bck": bck, "bckmode": bckmode, "flavor": flavor,
+            "order": order, "prob": prob, "seed": draw(st.integers(0, 2 ** 31 - 2))}
 
 
 # ------------------------------------------------------------------------------------------------
@@ -1530,8 +1695,12 @@ def enum_custom(tier, shard, nshards):
                     def mk(r, seed, fn=fn, kind=kind, wrapped=wrapped, order=order, bckmode=bckmode):
                         fwd = {k: r.choice([3, 0.5, True, "abc", "__none__"]) for k in r.sample(FREE_KEYS + REAL_KEYS, r.randint(0, 3))}
                         bck = {} if bckmode == "none" else {k: r.choice([7, 1e-3, False, "none"]) for k in r.sample(FREE_KEYS + REAL_KEYS, r.randint(0, 3))}
-                        return {"fn": fn, "kind": kind, "wrapped": wrapped, "fwd": fwd, "bck": bck, "bckmode": bckmode, "flavor": r.choice(FLAVORS),
-                                "order": order, "prob": prob_rand(fn, r), "seed": seed}
+                        flavor = r.choice(FLAVORS)
+                        if order == 2 and third_order_applies(fn, kind, bckmode) and r.random() < 0.34:
+                            order = 3
+                        prob = enlarge(fn, prob_rand(fn, r), bckmode, r.choice, r.randint)
+                        return {"fn": fn, "kind": kind, "wrapped": wrapped, "fwd": fwd, "bck": bck, "bckmode": bckmode, "flavor": flavor,
+                                "order": order, "prob": prob, "seed": seed}
                     cases.append(mk)
     return _sharded(cases, shard, nshards)
 
